@@ -136,10 +136,44 @@ def spec_hash(*files):
 _built = {}
 
 
+def repo_content_hash():
+    """Content hash of everything in /repo that reaches the build (cargo's own freshness test is by mtime only)."""
+    import hashlib
+    h = hashlib.sha256()
+    files = []
+    for root, dirs, fs in os.walk(os.path.join(REPO, "src")):
+        dirs.sort()
+        files += [os.path.join(root, f) for f in sorted(fs)]
+    for f in ("Cargo.toml", "Cargo.lock", "build.rs"):
+        if os.path.exists(os.path.join(REPO, f)):
+            files.append(os.path.join(REPO, f))
+    for f in files:
+        h.update(f.encode()); h.update(b"\0")
+        with open(f, "rb") as fh:
+            h.update(fh.read())
+    return h.hexdigest()
+
+
+def ensure_fresh(target_dir):
+    """Forces cargo to rebuild dryoc when /repo's content differs from what this target directory was last built from
+    (a tree swapped in with older modification times would otherwise be taken for unchanged)."""
+    import glob, shutil
+    want = repo_content_hash()
+    stamp = os.path.join(target_dir, ".repo_content_hash")
+    have = open(stamp).read().strip() if os.path.exists(stamp) else ""
+    if have != want:
+        for d in glob.glob(os.path.join(target_dir, "*", ".fingerprint", "dryoc-*")):
+            shutil.rmtree(d, ignore_errors=True)
+        os.makedirs(target_dir, exist_ok=True)
+        with open(stamp, "w") as f:
+            f.write(want)
+
+
 def build_harness(config="stable"):
     """Builds the harness against /repo's working tree. config: stable | nightly | simd."""
     if config in _built:
         return _built[config]
+    ensure_fresh(os.path.join(HARNESS, "target", config))
     cmd = ["cargo"]
     feats = []
     if config in ("nightly", "simd"):
